@@ -385,6 +385,43 @@ fn s2_specs(tier: Tier) -> Vec<Value> {
     specs
 }
 
+/// S4, the class family: every class of one or two items over a small character set, every
+/// range including reversed and degenerate ones, negated or not, in several contexts.
+fn s4_specs(tier: Tier) -> Vec<Value> {
+    let chars = ["a", "A", "1", ".", "金", "/", "!", "^", "&", "~", "\\]", "\\[", "\\-", "*", "z"];
+    let mut items: Vec<String> = chars.iter().map(|c| c.to_string()).collect();
+    for x in chars {
+        for y in chars {
+            items.push(format!("{}-{}", x, y));
+        }
+    }
+    let mut classes: Vec<String> = vec![];
+    for it in &items {
+        classes.push(format!("[{}]", it));
+        classes.push(format!("[!{}]", it));
+    }
+    // two items
+    let few: Vec<&String> = items.iter().step_by(tier.pick(7, 3)).collect();
+    for a in &few {
+        for b in &few {
+            classes.push(format!("[{}{}]", a, b));
+            classes.push(format!("[!{}{}]", a, b));
+        }
+    }
+    let mut specs = vec![];
+    for c in &classes {
+        specs.push(json!({"text": c}));
+        specs.push(json!({"text": format!("a{}b", c)}));
+        if tier == Tier::Thorough {
+            specs.push(json!({"text": format!("<{}:1,2>", c)}));
+            specs.push(json!({"text": format!("{{{},a}}", c)}));
+            specs.push(json!({"text": format!("(?i){}", c)}));
+            specs.push(json!({"text": format!("**/{}*", c)}));
+        }
+    }
+    specs
+}
+
 fn s3_specs(tier: Tier) -> Vec<Value> {
     let mut depths: Vec<u64> = (1..=16).collect();
     depths.extend([32, 64, 100, 120, 127, 128, 129, 130, 200, 256, 512, 1024]);
@@ -569,8 +606,11 @@ pub fn c05(tier: Tier) -> i32 {
     let mut specs = s2_specs(tier);
     let n2 = specs.len();
     specs.extend(s3_specs(tier));
+    let n3 = specs.len();
+    specs.extend(s4_specs(tier));
     rep.add("s2_bound_family", n2 as u64);
-    rep.add("s3_depth_family", (specs.len() - n2) as u64);
+    rep.add("s3_depth_family", (n3 - n2) as u64);
+    rep.add("s4_class_family", (specs.len() - n3) as u64);
     let chunks: Vec<&[Value]> = specs.chunks((specs.len() / 32).max(1)).collect();
     let results: Vec<Vec<String>> = chunks.par_iter().map(|ch| run_isolated(ch)).collect();
     let mut i = 0;
